@@ -702,7 +702,7 @@ class rmregbase16(X86Instruction):
 
         # sib byte and ...
         if rm.mod == 0 and rm.rm == 4:
-            if tokens[3].base == 5:
+            if sib.base == 5:
                 r += tokens[6].encode()
         return r
 
